@@ -15,6 +15,18 @@ def iv_stores(fn, P, cn):
     return out
 
 
+def iv_at_zuc_new(cx, fn):
+    """(the 16 byte expressions, the key expression) handed to ZUC::new"""
+    from ..rules_a import ExprFlow
+    ef = ExprFlow(cx.F, fn)
+    ef.run({i: '$' + fn.local_name(i) for i in range(1, fn.arg_count + 1)})
+    calls = [(b, a) for (b, n, a) in getattr(ef, 'call_log', []) if n.endswith('<impl ZUC>::new') or n.endswith('ZUC::new')]
+    if len(calls) != 1 or len(calls[0][1]) != 2:
+        return None, None
+    key, iv = calls[0][1]
+    return (iv if isinstance(iv, list) and len(iv) == 16 else None), (key if isinstance(key, str) else None)
+
+
 COUNT = {0: '(Shr($count, 24) as u8)', 1: '(Shr($count, 16) as u8)', 2: '(Shr($count, 8) as u8)', 3: '($count as u8)'}
 # accepted idioms for ceil(LENGTH / 32)
 CEIL = ('Div(AddWithOverflow($ilen, 31).0, 32)', 'AddWithOverflow(Div($ilen, 32), (Ne(Rem($ilen, 32), 0) as u32)).0')
@@ -28,17 +40,15 @@ def run(cx):
     fn = cx.fn('<impl eea::EEA>::new')
     if fn is not None:
         P = Prov(fn, cx.F); cn = Canon(fn, P)
-        st = iv_stores(fn, P, cn)
-        want = dict((k, [v]) for k, v in COUNT.items())
-        want[4] = ['(Shl(BitOr(Shl($bearer, 1), BitAnd($direction, 1)), 2) as u8)']
-        for k in range(5):
-            want[8 + k] = [IVR % k]
-        alt4 = ['(BitOr(Shl($bearer, 3), Shl(BitAnd($direction, 1), 2)) as u8)']
-        ok = st == want or {**st, 4: want[4]} == want and st.get(4) == alt4
-        cx.add('I-EEA-IV', 'EEA::new', ok, 'IV = COUNT(4, big-endian) || BEARER<<3|DIRECTION<<2 || 0 0 0, repeated in bytes 8..15: %s' % st, fn.loc())
-        zs = FR.calls_of(fn, '<impl ZUC>::new')
-        ok = len(zs) == 1 and FR.arg_canon(fn, P, cn, zs[0], 0) == '$ck' and FR.arg_canon(fn, P, cn, zs[0], 1).startswith('var:iv')
-        cx.add('I-EEA-IV', 'EEA::new/zuc', ok, 'the generator is keyed with (CK, IV)', fn.loc())
+        # the sixteen bytes handed to ZUC::new, each as a composed expression (field-sensitive flow: element stores,
+        # copy_from_slice, copy_within, ^= all give the same final array)
+        iv, key = iv_at_zuc_new(cx, fn)
+        c_ = [COUNT[k] for k in range(4)]
+        b4 = '(Shl(BitOr(Shl($bearer, 1), BitAnd($direction, 1)), 2) as u8)'
+        b4alt = '(BitOr(Shl($bearer, 3), Shl(BitAnd($direction, 1), 2)) as u8)'
+        ok = iv is not None and any(iv == c_ + [x] + ['0'] * 3 + c_ + [x] + ['0'] * 3 for x in (b4, b4alt))
+        cx.add('I-EEA-IV', 'EEA::new', ok, 'IV = COUNT(4, big-endian) || BEARER<<3|DIRECTION<<2 || 0 0 0, repeated in bytes 8..15: %s' % iv, fn.loc())
+        cx.add('I-EEA-IV', 'EEA::new/zuc', key == '$ck', 'the generator is keyed with (CK, IV)', fn.loc())
         # no store after the generator is created
     fn = cx.fn('<impl eea::EEA>::encrypt')
     if fn is not None:
@@ -71,17 +81,15 @@ def run(cx):
     fn = cx.fn('<impl eia::EIA>::new')
     if fn is not None:
         P = Prov(fn, cx.F); cn = Canon(fn, P)
-        st = iv_stores(fn, P, cn)
-        want = dict((k, [v]) for k, v in COUNT.items())
-        want[4] = ['(Shl($bearer, 3) as u8)']
-        want[8] = ['BitXor(%s, (Shl($direction, 7) as u8))' % (IVR % 0)]
-        for k in range(1, 5):
-            want[8 + k] = [IVR % k]
-        want[14] = ['BitXor(%s, (Shl($direction, 7) as u8))' % (IVR % 6)]
-        cx.add('I-EIA-IV', 'EIA::new', st == want, 'IV = COUNT || BEARER<<3 || 0 0 0 || IV[0]^(DIR<<7) || IV[1..4] || 0 || IV[6]^(DIR<<7) || 0: %s' % st, fn.loc())
-        zs = FR.calls_of(fn, '<impl ZUC>::new')
-        ok = len(zs) == 1 and FR.arg_canon(fn, P, cn, zs[0], 0) == '$ik' and FR.arg_canon(fn, P, cn, zs[0], 1).startswith('var:iv')
-        cx.add('I-EIA-IV', 'EIA::new/zuc', ok, 'the generator is keyed with (IK, IV)', fn.loc())
+        iv, key = iv_at_zuc_new(cx, fn)
+        c_ = [COUNT[k] for k in range(4)]
+        D7 = '(Shl($direction, 7) as u8)'
+        b4 = '(Shl($bearer, 3) as u8)'
+        want = c_ + [b4, '0', '0', '0'] + ['BitXor(%s, %s)' % (c_[0], D7)] + c_[1:] + [b4, '0', 'BitXor(0, %s)' % D7, '0']
+        alt = list(want)
+        alt[14] = D7        # 0 ^ x written as x
+        cx.add('I-EIA-IV', 'EIA::new', iv in (want, alt), 'IV = COUNT || BEARER<<3 || 0 0 0 || IV[0]^(DIR<<7) || IV[1..4] || 0 || IV[6]^(DIR<<7) || 0: %s' % iv, fn.loc())
+        cx.add('I-EIA-IV', 'EIA::new/zuc', key == '$ik', 'the generator is keyed with (IK, IV)', fn.loc())
     fn = cx.fn('<impl eia::EIA>::gen_mac')
     if fn is not None:
         P = Prov(fn, cx.F); cn = Canon(fn, P)
